@@ -181,7 +181,7 @@ pub fn pool_step(d: &mut Driver) {
 
 /// Pool-heavy history: many holders, many requests per pool and block on both sides, amounts over many magnitudes,
 /// plus directed situations (equal simultaneous deposits, withdraw everything, swaps on an emptied pool, drain attempts).
-pub fn swap_history(out: &mut crate::Out, tag: &str, seed: u64, net: NetID, blocks: usize, big: bool) {
+pub fn swap_history(out: &mut crate::Out, tag: &str, seed: u64, net: NetID, blocks: usize, big: bool, forged: bool) {
     use std::collections::BTreeMap;
     let mut d = Driver::new(out, tag, seed, net, 300, Denom::Mel, 1u128 << 70, 1 << 30, BTreeMap::new());
     d.wal.simple = true;
@@ -303,6 +303,19 @@ pub fn swap_history(out: &mut crate::Out, tag: &str, seed: u64, net: NetID, bloc
                     }
                 }
             }
+        }
+        d.seal_next(Some(true));
+    }
+    // liquidity tokens that no deposit minted (a faucet may create coins of any denomination off mainnet): redeeming more than the
+    // pool ever issued.  (Own job: C16 speaks of histories of swaps, deposits and withdrawals, not of faucets of liquidity tokens.)
+    if forged && net != NetID::Mainnet {
+        let k = PoolKey::new(Denom::Mel, Denom::Erg);
+        let a = d.wal.address(CovKind::New(2));
+        let liqs = known_pools(&d).iter().find(|x| x.0 == k).map(|x| x.1.liqs).unwrap_or(1_000_000_000);
+        let f = d.faucet(vec![mk_coin(a, liqs + 5, k.liq_token_denom(), &[]), mk_coin(a, 50_000_000, Denom::Mel, &[])], 0, 88);
+        d.apply(&[f], 0, json!({"why": "faucet of forged liquidity tokens"}));
+        if let Some((t, w)) = withdraw_tx(&mut d, k, true, 0, &[]) {
+            d.apply(&[t], 0, json!({"why": format!("withdrawal of more liquidity tokens than the pool issued: {}", w)}));
         }
         d.seal_next(Some(true));
     }
